@@ -71,7 +71,6 @@ var boundaryPool = []seriesT{
 	{"", "b", ""},
 	{"b", "b", "aé"},
 	{"", "", ""},
-	{"a", "a", ""},
 }
 
 // multisets enumerates all multisets (non-decreasing index sequences) of size lo..hi over a pool of n series.
